@@ -321,6 +321,14 @@ func (x *Exec) dispatch(s *State, e *ast.CallExpr, c callee, recv *Val, args []V
 	sp := top.body.Lbrace + 1
 	if x.fn == top {
 		sp = pos // locals visible at the call are visible to the rule
+	} else {
+		// a call made inside a function literal of the function under verification (a deferred or
+		// immediately called closure): the locals visible where the literal stands are visible to the rule
+		for f := x.fn; f != nil && f != top; f = f.parent {
+			if f.lit != nil && f.lit.Pos() > top.body.Lbrace && f.lit.End() <= top.body.Rbrace {
+				sp = f.lit.Pos()
+			}
+		}
 	}
 	mkEnv := func() *SpecEnv {
 		env := tx.specEnvAt(s, sp)
@@ -534,7 +542,25 @@ func (x *Exec) havocCall(s *State, sig *types.Signature, name string, recv *Val,
 	} else {
 		x.eng.unmod[name+" (results arbitrary)"] = true
 	}
-	return x.freshResults(s, sig, name)
+	res := x.freshResults(s, sig, name)
+	if tc := x.topContract(); tc != nil && tc.Opts["unknown_results_nonnil"] != "" {
+		// stated assumption of the contract: the unknown functions called here (constructors held
+		// in function variables) return non-nil pointers
+		nn := func(v Val) {
+			if _, isPtr := under(v.T).(*types.Pointer); isPtr && v.K == KInt {
+				s.assume(mkNot(mkEq(v.S, "0")))
+			}
+		}
+		if res.K == KTuple {
+			for _, f := range res.Fs {
+				nn(f)
+			}
+		} else {
+			nn(res)
+		}
+		x.eng.note("pointers returned by calls through function variables are non-nil in " + x.eng.curTop.name + " (opt unknown_results_nonnil)")
+	}
+	return res
 }
 
 func (x *Exec) havocHeap(s *State) {
@@ -547,7 +573,18 @@ func (x *Exec) havocHeap(s *State) {
 		if n == "$alloc" || strings.HasPrefix(n, "G$") || x.eng.immutableArray(n) {
 			continue
 		}
-		s.heapHavoc(n, x.eng.decl[s.heap[n]])
+		old := s.heap[n]
+		s.heapHavoc(n, x.eng.decl[old])
+		if strings.HasPrefix(n, "H$") && len(s.privRefs) > 0 {
+			// cells of private address-taken locals are out of reach of unknown code
+			t := s.heap[n]
+			for _, r := range s.privRefs {
+				t = mkSto(t, r, mkSel(old, r))
+			}
+			c := x.eng.fresh(n+"@", x.eng.decl[old])
+			s.pc = s.pc.push(mkEq(c, t))
+			s.heap[n] = c
+		}
 	}
 	s.hvAll = true
 	s.lazyRefs = nil
